@@ -3,6 +3,7 @@ package main
 // govc: verification-condition generator and checker for the contracts of ja7ad/otp.
 
 import (
+	"encoding/hex"
 	"encoding/json"
 	"flag"
 	"fmt"
@@ -29,6 +30,8 @@ type OblOut struct {
 	Pos     string            `json:"pos"`
 	Src     string            `json:"src"`
 	Model   map[string]string `json:"model,omitempty"`
+	Candidate map[string]string `json:"candidate_model,omitempty"`
+	Inputs    map[string]string `json:"inputs,omitempty"`
 	Output  string            `json:"output,omitempty"`
 	SMTSize int               `json:"smt_bytes"`
 	Expect  string            `json:"expect,omitempty"`
@@ -181,9 +184,20 @@ func main() {
 			}
 			sem <- struct{}{}
 			defer func() { <-sem }()
+			for _, it := range o.fx.inputs {
+				o.GetVals = append(o.GetVals, it.Term)
+			}
 			q := o.fx.query(o)
 			oo.SMTSize = len(q)
-			r := Solve(q, o.GetVals, *timeout, *all, *work, o.Name)
+			var r SolverResult
+			if o.Expected == "sat" {
+				r = solveMBQI(q, nil, 2, *work, o.Name) // cover query: anything but unsat passes
+				if r.Status != "unsat" && r.Status != "sat" {
+					r.Status = "unknown"
+				}
+			} else {
+				r = Solve(q, o.GetVals, *timeout, *all, *work, o.Name)
+			}
 			if o.Expected == "" && r.Status != "unsat" && r.Status != "sat" {
 				// second chance: cone-of-influence slice (fewer hypotheses: a proof of the slice is a
 				// proof of the obligation; a model of it is a candidate counterexample), with
@@ -196,8 +210,32 @@ func main() {
 					r.Status, r.Solver = "unsat", r2.Solver+"(sliced)"
 				}
 				r.Seconds += r2.Seconds
+				if r.Status != "sat" && r.Status != "unsat" {
+					// model hunt: the slice with every quantified hypothesis removed is quantifier-free;
+					// a model is only a candidate input and must be confirmed by replay on the real code
+					r3 := solveMBQI(stripQuantified(q2), o.GetVals, *timeout, *work, o.Name+".qf")
+					if r3.Status == "sat" {
+						oo.Candidate = r3.Model
+					}
+					r.Seconds += r3.Seconds
+				}
 			}
-			oo.Status, oo.Solver, oo.Seconds, oo.Model = r.Status, r.Solver, r.Seconds, r.Model
+			oo.Status, oo.Solver, oo.Seconds = r.Status, r.Solver, r.Seconds
+			mdl := r.Model
+			if mdl == nil {
+				mdl = oo.Candidate
+			}
+			if mdl != nil {
+				oo.Inputs = map[string]string{}
+				for _, it := range o.fx.inputs {
+					if v, ok := mdl[it.Term]; ok {
+						oo.Inputs[it.Label] = v
+					}
+				}
+				if r.Model == nil {
+					oo.Candidate = map[string]string{"from": "quantifier-free slice"}
+				}
+			}
 			file := fmt.Sprintf("%s/%s.smt2", *work, sanitize(o.Name))
 			if r.Status != "unsat" || o.Expected != "" {
 				oo.Output = truncateStr(r.Output, 2000)
@@ -244,6 +282,28 @@ func main() {
 	}
 }
 
+func stripQuantified(q string) string {
+	sx, err := parseSexprs(q)
+	if err != nil {
+		return q
+	}
+	var b strings.Builder
+	for _, s := range sx {
+		if s.isList && len(s.list) == 2 && s.list[0].atom == "assert" && s.list[1].isList && len(s.list[1].list) > 0 && s.list[1].list[0].atom == "forall" {
+			continue
+		}
+		t := s.String()
+		if strings.Contains(t, "(forall ") || strings.Contains(t, "(exists ") {
+			if s.isList && len(s.list) > 0 && s.list[0].atom == "assert" {
+				continue
+			}
+		}
+		b.WriteString(t)
+		b.WriteString("\n")
+	}
+	return b.String()
+}
+
 func truncateStr(s string, n int) string {
 	if len(s) > n {
 		return s[:n] + "..."
@@ -271,6 +331,8 @@ func solveMBQI(q string, getvals []string, timeoutS int, dir, name string) Solve
 }
 
 var seqRe = regexp.MustCompile(`BSeq|\(len |\(at |\(view |empty|str!|\(cat |\(sub |SeqEq`)
+
+var specLitRe = regexp.MustCompile(`str!x([0-9a-f]+)`)
 
 var symRe = regexp.MustCompile(`[A-Za-z_][A-Za-z0-9_]*![0-9]+`)
 
@@ -391,19 +453,27 @@ func (fx *FX) queryMode(o *Obligation, sliced bool) string {
 	b.WriteString(preludeCore)
 	if uses {
 		b.WriteString(preludeSeq)
-		b.WriteString(fx.u.SpecText)
-		b.WriteString("\n")
-		// literals used by this function
+		// literals used by this function and by the spec library
+		lits := map[string]T{}
+		for s, t := range fx.strLits {
+			lits[s] = t
+		}
+		for _, m := range specLitRe.FindAllStringSubmatch(fx.u.SpecText, -1) {
+			if raw, err := hex.DecodeString(m[1]); err == nil {
+				lits[string(raw)] = T{"str!x" + m[1], SSeq}
+			}
+		}
 		var keys []string
-		for s := range fx.strLits {
+		for s := range lits {
 			keys = append(keys, s)
 		}
 		sort.Strings(keys)
 		for _, s := range keys {
-			b.WriteString(litAxioms(s, fx.strLits[s]))
+			b.WriteString(litAxioms(s, lits[s]))
 		}
+		b.WriteString(fx.u.specTextFor(fx.reveal(), false))
 	} else {
-		b.WriteString(fx.u.intSpecText())
+		b.WriteString(fx.u.specTextFor(fx.reveal(), true))
 	}
 	b.WriteString(body)
 	b.WriteString("\n")
@@ -434,6 +504,13 @@ func (fx *FX) obligeTrivial(kind, label string, goal T, pos interface{ IsValid()
 	name := fmt.Sprintf("%s.%s/%s#%d", fx.u.Name, fx.name, key, fx.kindN[key])
 	o := &Obligation{Name: name, Kind: kind, Func: fx.name, Unit: fx.u.Name, Prefix: len(fx.lines), Guard: tTrue, Goal: goal, Extra: tTrue, Src: src, fx: fx, Trivial: true}
 	fx.obls = append(fx.obls, o)
+}
+
+func (fx *FX) reveal() map[string]bool {
+	if fx.fc == nil {
+		return nil
+	}
+	return fx.fc.Reveal
 }
 
 func (u *Unit) unitPkg(fn *ssa.Function) *ssa.Package {
